@@ -229,6 +229,12 @@ func negDesc(d string) string {
 	if strings.HasPrefix(d, "!") {
 		return d[1:]
 	}
+	// comparisons are decoded per edge: the other edge of `x == y` reads `x != y`
+	for _, pair := range [][2]string{{" == ", " != "}, {" != ", " == "}} {
+		if strings.Count(d, pair[0]) == 1 && !strings.Contains(d, pair[1]) && !strings.Contains(d, "(") {
+			return strings.Replace(d, pair[0], pair[1], 1)
+		}
+	}
 	return "!" + d
 }
 
